@@ -375,6 +375,25 @@ def reflection_bounded(run):
         '(typing.get_origin/get_args, inspect.signature)'))
 
 
+def defaults_bounded(run):
+    try:
+        rc, out, err = run_native([os.path.join(
+            VERIF, 'checks', 'defaults_native.py')], run.repo, timeout=600)
+        r = json.loads(out)
+    except Exception as ex:      # noqa
+        run.broken.append('defaults stand-in failed to run: %r' % (ex,))
+        return
+    run.bounded.append(Bounded(
+        'remove-defaulted-attributes', '12 defaults (None, ints, floats, '
+        'bools, strings; from __init__ or _yatiml_defaults) x 32 value '
+        'spellings (every YAML int/float/bool/null/str family, collections) '
+        'x defaulted / non-defaulted parameter',
+        r['evaluations'], r['failures'],
+        'the real Node.remove_attributes_with_default_values against '
+        '"removes exactly the defaulted attributes whose value equals the '
+        'default, never fails"; tolerance T-BOOL-NUM (0 vs False)'))
+
+
 def alias_bounded(run):
     try:
         rc, out, err = run_native([os.path.join(
